@@ -539,7 +539,17 @@ def replay_cmd(path: str) -> int:
     root = scratch.make_copy("replay")
     try:
         tool = build_tool(os.path.join(root, "repo"))
-        r = native(doc["recipe"], doc["inputs"], tool)
+        if doc.get("recipe", {}).get("kind") == "asm":
+            # emitted-text obligation: the recorded source line through the real assembler, compared with the recorded expectation
+            import text_replay
+            obs = ask(tool, ["asm " + doc["recipe"]["source"].replace("\n", "\\n")])[0]
+            exp = doc["replay"]["expected_tokens"]
+            lines = (obs.get("code") or []) if isinstance(obs, dict) else []
+            got = text_replay.TOK.findall(lines[-1]) if lines else []
+            r = {"source": doc["recipe"]["source"], "observed": obs, "emitted_tokens": got, "expected_tokens": exp,
+                 "mismatch": [] if got == exp else [f"emitted tokens {got} expected {exp}"]}
+        else:
+            r = native(doc["recipe"], doc["inputs"], tool)
         print(json.dumps(r, indent=1))
         if r is None:
             print("no native recipe for this obligation; verifier output:", json.dumps(doc.get("verifier_failed_checks"))[:1500])
